@@ -30,6 +30,7 @@ type dbSuite struct {
 	again   []string
 	// lines to emit next, inside the current transaction (a burst A, B, A of writes to one member)
 	pendOps []string
+	script  []string // lines emitted verbatim before anything else is generated (see burst)
 	// a set key whose members were all removed a moment ago (the key stays, with no members): the next set
 	// operations go to it — an emptied structure is where a "pick one member" shortcut breaks
 	emptiedB, emptiedK string
@@ -56,6 +57,10 @@ type dbSuite struct {
 	optNow   int64
 	faultAt  int // injected write error: index of the data-file write of the next commit that fails (-1: none)
 	faultCnt int
+	inCommit bool
+	lastMarker bool
+	sfaultCnt int
+	sfaultAt int // injected sync error: index of the data-file sync of the next commit that fails (-1: none)
 	bigTx    int // kvbig: transactions begun so far
 	bigLoad  int // kvbig: number of leading bulk-load transactions
 	openLine string
@@ -120,6 +125,18 @@ func oddLimit(r *rand.Rand) int {
 var errInjected = errors.New("injected write error")
 
 func (s *dbSuite) hook(op, path string, off int64, data []byte) error {
+	if op == "write" && s.inCommit && strings.HasSuffix(path, ".dat") && len(data) >= 32 {
+		s.lastMarker = data[30] == 1 // the status field of the record being written: Committed = the transaction's last record
+	}
+	if op == "sync" && s.sfaultAt >= 0 && s.inCommit && strings.HasSuffix(path, ".dat") {
+		s.sfaultCnt++
+		if s.sfaultCnt-1 == s.sfaultAt {
+			s.sfaultAt = -1
+			if !s.lastMarker { // the sync of the marker record is never failed: that outcome is in doubt
+				return errInjected
+			}
+		}
+	}
 	if op == "write" && s.faultAt >= 0 && strings.HasSuffix(path, ".dat") {
 		s.faultCnt++
 		if s.faultCnt-1 == s.faultAt {
@@ -312,11 +329,13 @@ func (s *dbSuite) newCase(id int) {
 	s.nkeys = 0
 	s.bigTx, s.bigLoad = 0, 3+id%9
 	s.faultAt = -1
+	s.sfaultAt, s.inCommit, s.lastMarker = -1, false, false
 	s.bkN, s.bkPending, s.bkAfterMerge = 0, -1, false
 	s.optRng = nil
 	s.noList = (s.profile == "merge" || s.profile == "mcrash") && id%2 == 1
 	s.again = nil
 	s.pendOps = nil
+	s.script = nil
 	s.emptiedB, s.emptiedK = "", ""
 	if strings.HasPrefix(s.profile, "opts") {
 		g := 8
@@ -525,12 +544,16 @@ func (s *dbSuite) exec(line string) string {
 	case "fault":
 		s.faultAt, s.faultCnt = atoi(f[1]), 0
 		return "ok"
+	case "sfault":
+		s.sfaultAt, s.sfaultCnt = atoi(f[1]), 0
+		return "ok"
 	case "commit":
 		if s.tx == nil {
 			return "err"
 		}
 		var res string
-		defer func() { s.faultAt = -1 }()
+		s.inCommit = true
+		defer func() { s.faultAt, s.sfaultAt, s.inCommit = -1, -1, false }()
 		if s.armed {
 			s.armed = false
 			s.startCapture()
@@ -948,6 +971,11 @@ func (s *dbSuite) gen(r *rand.Rand, step int) string {
 	if s.optRng != nil {
 		r = s.optRng
 	}
+	if len(s.script) > 0 {
+		l := s.script[0]
+		s.script = s.script[1:]
+		return l
+	}
 	if !s.opened {
 		s.opened = true
 		mode := 0
@@ -1022,6 +1050,41 @@ func (s *dbSuite) gen(r *rand.Rand, step int) string {
 			s.bkAfterMerge = true // a backup right after a Merge, looked at a few transactions later
 			s.mergedOnce = true
 			return fmt.Sprintf("merge %d", s.now())
+		case x == 7 && (s.profile == "crash" || s.profile == "mixed" || s.profile == "kv") && s.optRng == nil && s.openLine != "" && s.bkPending < 0 && !s.armedGen:
+			// a burst without pauses: a committed transaction, a clean reopen, at once a transaction that
+			// fails at its second record (larger than any segment), a reopen, a look. Whatever the library
+			// derives from the clock (transaction ids) is the same on both sides of the reopen when the
+			// burst fits into one tick.
+			b := s.genBucket(r)
+			hb := hx([]byte(b))
+			k1, k2, k3 := s.genKey(r, b), s.genKey(r, b), s.genKey(r, b)
+			now := s.now()
+			s.script = []string{
+				fmt.Sprintf("put %s %s %s 0 %d", hb, hx(k1), hx(pickVal(r)), now),
+				"commit", "close", s.openLine, "begin w",
+				fmt.Sprintf("put %s %s %s 0 %d", hb, hx(k2), hx(pickVal(r)), now),
+				fmt.Sprintf("put %s %s %s 0 %d", hb, hx(k3), hx([]byte(strings.Repeat("B", 600))), now),
+				"commit", fmt.Sprintf("obs %d", now), "close", s.openLine, fmt.Sprintf("obs %d", now),
+			}
+			return "begin w"
+		case x == 8 && (s.profile == "crash" || s.profile == "mixed") && s.optRng == nil && s.openLine != "" && s.bkPending < 0 && !s.armedGen && s.opt.SyncEnable:
+			// a Sync that fails after the write of a record short of the last: Commit returns the error, nothing
+			// of the transaction is visible, in the process or after the reopen that follows at once
+			b := s.genBucket(r)
+			hb := hx([]byte(b))
+			now := s.now()
+			lines := []string{}
+			n := 2 + r.Intn(3)
+			for i := 0; i < n; i++ {
+				if s.opt.EntryIdxMode == nutsdb.HintKeyValAndRAMIdxMode && r.Intn(3) == 0 {
+					lines = append(lines, fmt.Sprintf("sadd %s %s %s %d", hb, hx(obsKeys[r.Intn(2)]), hxList([][]byte{pickVal(r)}), now))
+				} else {
+					lines = append(lines, fmt.Sprintf("put %s %s %s 0 %d", hb, hx(s.genKey(r, b)), hx(pickVal(r)), now))
+				}
+			}
+			lines = append(lines, fmt.Sprintf("sfault %d", r.Intn(n-1)), "commit", fmt.Sprintf("obs %d", now), "close", s.openLine, fmt.Sprintf("obs %d", now))
+			s.script = lines
+			return "begin w"
 		case x == 2:
 			// a call on a finished transaction
 			return s.genOp(r, true)
